@@ -112,7 +112,7 @@ static LAST_PANIC: std::sync::Mutex<String> = std::sync::Mutex::new(String::new(
 /// order of creation).  A library that keeps per-thread scratch state must still work there; a result that differs
 /// from the ordinary one is attached to the case (so it also disagrees with the model) and reported by the oracle.
 fn thread_exit_pass(prop: &str, out: &mut Out) {
-    const SKIP: [&str; 14] = ["serialt", "serialts", "serialmt", "serialmts", "bigpage", "e2e", "noop", "port", "odk", "soak", "pagefromlen", "typefromlen", "bigpageeq", "serialmte"];
+    const SKIP: [&str; 15] = ["serialt", "serialts", "serialmt", "serialmts", "bigpage", "e2e", "noop", "port", "odk", "soak", "pagefromlen", "typefromlen", "bigpageeq", "serialmte", "serialmtu"];
     let eligible: Vec<usize> = (0..out.cases.len())
         .filter(|&i| {
             let c = &out.cases[i];
